@@ -56,6 +56,14 @@ def success_case(draw):
         ffs = DNA_FFS if any_dna else RNA_FFS
         if kind == "na":
             desc["waters"] = []
+    if kind == "protein" and len(desc["chains"]) > 1 and draw(st.integers(0, 3)) == 0:
+        # several complete peptides under ONE chain id without TER records (hidden chain ends)
+        if desc["chains"][0]["start"] > 9000:
+            desc["chains"][0]["start"] = 1
+        for prev, nxt in zip(desc["chains"], desc["chains"][1:]):
+            prev["oxt"], prev["ter"] = True, False
+            nxt["id"] = prev["id"]
+            nxt["start"] = prev["start"] + len(prev["seq"]) + 2
     ff = draw(st.sampled_from(ffs))
     opts = list(draw(st.sampled_from([[], [], [], ["--noopt"], ["--nodebump"], ["--nodebump", "--noopt"]])))
     if ff == "PARSE" and kind == "protein":
@@ -119,14 +127,14 @@ STAGES = [
 ]  # fmt: skip
 EXCS = {"ValueError": ValueError, "RuntimeError": RuntimeError, "KeyError": KeyError, "IndexError": IndexError,
         "TypeError": TypeError}  # fmt: skip
-MALFORMED = ["empty", "garbage", "whitespace-only", "bad-number", "header-only", "unrepairable", "missing-input",
+MALFORMED = ["userff-nonintegral", "userff-nonintegral", "empty", "garbage", "whitespace-only", "bad-number", "header-only", "unrepairable", "missing-input",
              "neutraln-amber", "ph-range", "no-ff", "assign-only-incomplete", "missing-userff", "userff-without-names",
              "missing-ligand", "unknown-ff", "hetero-only"]  # fmt: skip
 
 
 @st.composite
 def fail_case(draw):
-    desc = draw(e2e.structure(max_chains=2, nmax=4, nmin=2, variants=0, oxt=True, contact=False))
+    desc = draw(e2e.structure(max_chains=2, nmax=draw(st.sampled_from([4, 4, 12])), nmin=2, variants=0, oxt=True, contact=False))
     kind = draw(st.sampled_from(["inject", "inject", "inject", "malformed"]))
     c = dict(part="fail", kind=kind, desc=desc, ff=draw(st.sampled_from(strat.FFS)),
              prefill=draw(st.booleans()), opts=[])  # fmt: skip
@@ -225,6 +233,23 @@ def check_fail(case):
             opts = [f"--ff={ff}", "--ligand=@DIR@/nope.mol2"]
         elif w == "unknown-ff":
             opts = ["--ff=NOSUCHFF"]
+        elif w == "userff-nonintegral":
+            # a parameter file whose charges do not add up (one row off by delta >> 1e-3): the total
+            # charge is non-integral whatever the size of the structure
+            dat_dir = topo.dat_dir()
+            delta = [0.004, 0.012, 0.05, 0.3][case.get("k_delta", len(desc["chains"][0]["seq"])) % 4]
+            rows = []
+            target = desc["chains"][0]["seq"][1 % len(desc["chains"][0]["seq"])]
+            hit = False
+            for ln in (dat_dir / "AMBER.DAT").read_text().splitlines():
+                f = ln.split()
+                if not hit and len(f) >= 4 and f[0] == target and f[1] == "CA" and len(desc["chains"][0]["seq"]) > 2:
+                    ln = f"{f[0]}\t{f[1]}\t{float(f[2]) + delta:.4f}\t{f[3]}"
+                    hit = True
+                rows.append(ln)
+            extra = {"bad.dat": "\n".join(rows) + "\n", "bad.names": (dat_dir / "AMBER.names").read_text()}
+            opts = ["--userff=@DIR@/bad.dat", "--usernames=@DIR@/bad.names"]
+            must_fail = hit
         elif w == "hetero-only":
             text = "HETATM    1 ZN    ZN A   1       1.000   2.000   3.000  1.00  0.00          ZN\nEND\n"
     sentinel = "SENTINEL - must not be touched\n" if case["prefill"] else None
